@@ -941,6 +941,9 @@ class ReadCap16(StructFormat):
 def counts(rng, mode):
     if isinstance(mode, tuple) and mode[0] == "count":
         return mode[1]
+    v = gen.source_value(rng, 16, hi=300)  # counts the library's code mentions (exactly 16, 255, 256 ...)
+    if v is not None:
+        return v
     return rng.choice([0, 1, 1, 2, 3, 5, 9, rng.randrange(0, 40)])
 
 
